@@ -1,4 +1,5 @@
--- expect-wf: bad more than 60 upvalues
+-- expect-wf[jit]: bad more than 60 upvalues
+-- expect-wf[5.3]: ok
 do
 local u0 = 0
 local u1 = 1
